@@ -58,6 +58,8 @@ def vk (v : Version) : VK := ⟨key v⟩
 
 theorem vk_lt_iff (a b : Version) : vk a < vk b ↔ cmp a b = .lt := Iff.rfl
 
+theorem vk_le_iff (a b : Version) : vk a ≤ vk b ↔ cmp a b ≠ .gt := Iff.rfl
+
 theorem vk_eq_iff (a b : Version) : vk a = vk b ↔ cmp a b = .eq := by
   rw [cmp_eq_iff_key]
   constructor
